@@ -530,7 +530,7 @@ def execute(scenario: dict, env: Any, *, prop: str) -> dict:
                     except Exception as e:  # noqa: BLE001
                         res, err = None, e
                 mism = [w for w in wlist if issubclass(w.category, DataMismatchWarning)]
-                log.append([step, "fault", fault["kind"], type(err).__name__ if err else "ok", len(mism)])
+                log.append([step, "fault", fault["kind"], "raised" if err else "ok", bool(mism)])  # class may depend on set order
                 if prop != "C09":
                     continue
                 fk = fault["kind"]
